@@ -157,8 +157,57 @@ def gen_stream(rng, n, collide_every=0):
              "ops": ops, "caps": caps, "dcap": rng.choice([1, 2, 16, 100, 1024, 32768])}
         if rng.random() < 0.12:
             c["dribble"] = [rng.choice([1, 2, 5, 20, 21, 22, 40]) for _ in range(rng.randrange(3, 25))]
+        if rng.random() < 0.4:
+            add_tracker(rng, c)
         out.append(c)
     return out
+
+
+def add_tracker(rng, c):
+    """give the reading stream of a stream case a TunnelStateTracker and events MarkTunnelClosed(own id / a foreign id / an
+    unrelated id) before the first Read or after k Reads have returned"""
+    ids = [c["reader"]] * 3 + list(c["writers"]) + [hx(rand_id_string(rng))]
+    c["tracker"] = True
+    c["premarked"] = [rng.choice(ids) for _ in range(rng.choice([0, 0, 1, 2]))]
+    c["marks"] = [{"after": rng.choice([0, 0, 1, 2, 3, 5, 9]), "id": rng.choice(ids)} for _ in range(rng.choice([0, 1, 2, 3]))]
+    return c
+
+
+def gen_stream_tracker(rng, n):
+    """the stream's OWN tunnel is reported closed by the tracker while frames written before the sender's close are still
+    unread (ids <= 16 bytes, which TunnelIDToString gives back, and longer ones), with residual frames of a closed
+    foreign tunnel in between"""
+    out = []
+    for i in range(n):
+        mine = rng.choice(["t%d" % rng.randrange(10 ** 6), "demo-tunnel", "1234567890123456", rand_id_string(rng)])
+        other = "old-tunnel-%d" % rng.randrange(100)
+        ops = []
+        for _ in range(rng.choice([1, 3, 5])):
+            ops.append({"k": "w", "w": 0, "data": rand_bytes(rng, rng.choice([1, 5, 300, 4002])).hex()})
+            if rng.random() < 0.4:
+                ops.append({"k": "w", "w": 1, "data": rand_bytes(rng, 7).hex()})
+        if rng.random() < 0.5:
+            ops.append({"k": "c", "w": 1})
+        ops.append({"k": rng.choice(["c", "cw"]), "w": 0})
+        c = {"mode": "stream", "writers": [hx(mine), hx(other)], "reader": hx(mine), "reader_cw": False, "ops": ops,
+             "caps": [rng.choice([1, 100, 4096])] * rng.choice([0, 2]), "dcap": rng.choice([64, 4096, 32768]),
+             "tracker": True, "premarked": [hx(other)] + ([hx(mine)] if i % 4 == 0 else []),
+             "marks": [] if i % 4 == 0 else [{"after": rng.choice([0, 0, 1, 2, 4]), "id": hx(mine)}]}
+        out.append(c)
+    return out
+
+
+def tracker_states(c):
+    """what the reader's tracker reports closed at each Read (cumulative), and from then on"""
+    if not c.get("tracker"):
+        return [], []
+    pre = [bytes.fromhex(x) for x in c.get("premarked") or []]
+    marks = c.get("marks") or []
+    last = max([m["after"] for m in marks], default=-1)
+    cls = []
+    for i in range(last + 1):
+        cls.append(pre + [bytes.fromhex(m["id"]) for m in marks if m["after"] <= i])
+    return cls, pre + [bytes.fromhex(m["id"]) for m in marks]
 
 
 def gen_stream_big(rng, thorough):
@@ -443,7 +492,7 @@ def case_values(c, o):
         final = {"eof": 0, "err": 1, "data": 2}.get(o.get("final"), 9)
         return [[1, hb(c["reader_wid"]), bool(c.get("reader_cw")), [hb(w) for w in c["writer_wids"]], ops,
                  [max(1, k) for k in c["caps"]], max(1, c["dcap"]), hb(o["wire"]), [[r["n"], r["e"]] for r in o["wres"]],
-                 [hb(r) for r in (o.get("reads") or [])], term, final, bool(o["broken"])]]
+                 [hb(r) for r in (o.get("reads") or [])], term, final, bool(o["broken"]), *tracker_states(c)]]
     return [[2, hb(s), hb(i), hb(b)] for s, i, b in zip(c["strs"], o["ids"], o["backs"])]
 
 
@@ -540,16 +589,21 @@ def run(ctx, only_cases=None):
     except (ValueError, OSError):
         pass
     binary = vlib.build_harness("C10")
-    gen_text = vlib.harness_text(binary, ["gen"])
-    gen_changed = vlib.write_if_changed(os.path.join(vlib.COQ, "Gen", "C10.v"), gen_text)
-    hashing_tree = "Definition wire_id_variant : N := 1." in gen_text
     broken = None
+    gen_changed = False
+    try:
+        gen_text = vlib.harness_text(binary, ["gen"])
+        gen_changed = vlib.write_if_changed(os.path.join(vlib.COQ, "Gen", "C10.v"), gen_text)
+    except vlib.Broken as b:
+        broken = b   # the translator failed on this tree: keep the previous Gen/C10.v and look for a failing input first
+        gen_text = open(os.path.join(vlib.COQ, "Gen", "C10.v")).read()
+    hashing_tree = "Definition wire_id_variant : N := 1." in gen_text
     try:
         pinfo = vlib.coq_properties("C10")
         vlib.proof_coverage(ctx, pinfo, "make -C coq Properties/C10.vo && coqc Properties/C10.v (Print Assumptions audit)",
                             extra_obligations=7)   # the 7 regenerated side conditions of Proofs/SideC10.v
     except vlib.Broken as b:
-        broken = b   # keep going: search the implementation for a concrete failing input first
+        broken = broken or b   # keep going: search the implementation for a concrete failing input first
 
     if only_cases is not None:
         cases = list(only_cases)
@@ -557,6 +611,7 @@ def run(ctx, only_cases=None):
         cases = load_corpus()
         cases += gen_enc(rng, 1500 if thorough else 150, big=True)
         cases += gen_stream(rng, 3000 if thorough else 300, collide_every=25)
+        cases += gen_stream_tracker(rng, 600 if thorough else 80)
         cases += gen_stream_hostile(rng, 600 if thorough else 60)
         cases += gen_stream_big(rng, thorough)
         cases += gen_tid(rng, 400 if thorough else 40)
@@ -667,6 +722,12 @@ def run(ctx, only_cases=None):
             dist["stream_with_foreign_or_unknown_frames"] += foreign
             dist["stream_with_colliding_wire_id"] += o.get("prop_key") == "wire-id-truncation"
             dist["stream_dribbled_over_tcp"] += bool(c.get("dribble"))
+            if c.get("tracker"):
+                dist["stream_reader_with_tracker"] = dist.get("stream_reader_with_tracker", 0) + 1
+                own = c["reader"] in (c.get("premarked") or []) or any(m["id"] == c["reader"] for m in c.get("marks") or [])
+                dist["stream_own_tunnel_marked_closed"] = dist.get("stream_own_tunnel_marked_closed", 0) + own
+                if own and len(c["reader"]) <= 32 and len(o.get("reads") or []) >= 1:
+                    nontrivial.add(h)
             dist["reader_terminations"][o.get("term")] = dist["reader_terminations"].get(o.get("term"), 0) + 1
             if len(o.get("reads") or []) >= 2 and (foreign or bigw):
                 nontrivial.add(h)
